@@ -217,33 +217,31 @@ DocTreesLarge == {<<e>> : e \in DocElems(2)} \cup {<<El("p", a, <<>>, <<e, TextN
 DocVariants == 0..3
 
 \* ---- descriptors ---------------------------------------------------------------------------------------------------------
-\* A family is given by DIMENSIONS (sequences of options) and a builder from one option per dimension to a case.  The
-\* model checker enumerates small descriptors [fam, ix, ctx] (ix = one index per dimension) and builds the tree in
-\* an action; big sets of big trees are never built.  (Zero-arity definitions: TLC evaluates them once.)
-DimsExpr  == <<Sq(ExprTrees)>>
-DimsOne   == <<Sq(Opt({Define1a, Define1b})), Sq(CondOpts1), Sq(RepeatOpts1), Sq(ContentOpts1), Sq(AttrOpts1), Sq(OmitOpts1)>>
-DimsVoid  == <<Sq(VoidTrees)>>
-DimsNest  == IF Quick  \* quick tier: the parent has no condition and no omit-tag, the child no attributes
-             THEN <<Sq(PDefine), Sq({<<>>}), Sq(Opt({CRepeat("r", P("rows")), CRepeat("r", P("lst"))})), Sq(Opt({CContent(P("default"), FALSE)})),
-                    Sq(PAttr), Sq({<<>>}), Sq(KDefine), Sq(KCond), Sq(KRepeat), Sq(KContent), Sq({<<>>})>>
-             ELSE <<Sq(PDefine), Sq(PCond), Sq(PRepeat), Sq(PContent), Sq(PAttr), Sq(POmit), Sq(KDefine), Sq(KCond), Sq(KRepeat), Sq(KContent), Sq(KAttr)>>
-DimsDeep  == <<Sq(DeepTrees)>>
-DimsMetal == <<IF Quick THEN <<TRUE>> ELSE <<TRUE, FALSE>>, Sq(MacroTal), Sq(SlotTal), Sq(UsePairs), Sq(FillOpts)>>
-DimsMetalX == <<Sq(MetalExtra)>>
-DimsEsc   == <<Sq(EscShapes), Sq(MetaValues(EscLen))>>
-DimsPy    == <<Sq(PyTrees), <<FALSE, TRUE>>>>
-DimsDoc   == <<Sq(IF Quick THEN DocTreesSmall ELSE DocTreesSmall \cup DocTreesLarge), <<0, 1, 2, 3>>>>
-Dims(f) == CASE f = "expr" -> DimsExpr [] f = "one" -> DimsOne [] f = "void" -> DimsVoid [] f = "nest" -> DimsNest
-             [] f = "deep" -> DimsDeep [] f = "metal" -> DimsMetal [] f = "metalx" -> DimsMetalX [] f = "esc" -> DimsEsc
-             [] f = "py" -> DimsPy [] f = "doc" -> DimsDoc
-AllFamilies == {"expr", "one", "void", "nest", "deep", "metal", "metalx", "esc", "py", "doc"}
+\* The model checker enumerates DESCRIPTORS [fam, ix, ctx, tree] and builds the case in an action.
+\* Product families (one, nest, metal, esc, py) are given by DIMENSIONS (sequences of options) and a builder from one
+\* option per dimension: ix = one index per dimension, tree = <<>> until built (big sets of big trees are never
+\* built).  Set families (expr, void, deep, metalx, doc) are small sets of trees: the descriptor carries the tree.
+DocTrees == IF Quick THEN DocTreesSmall ELSE DocTreesSmall \cup DocTreesLarge
+SetFams == {"expr", "void", "deep", "metalx", "doc"}
+TreesOf(f) == CASE f = "expr" -> ExprTrees [] f = "void" -> VoidTrees [] f = "deep" -> DeepTrees
+                [] f = "metalx" -> MetalExtra [] f = "doc" -> DocTrees [] OTHER -> {<<>>}
+Dims(f) ==
+    CASE f = "one"   -> <<Sq(Opt({Define1a, Define1b})), Sq(CondOpts1), Sq(RepeatOpts1), Sq(ContentOpts1), Sq(AttrOpts1), Sq(OmitOpts1)>>
+      [] f = "nest"  -> (IF Quick  \* quick tier: the parent has no condition and no omit-tag, the child no attributes
+                         THEN <<Sq(PDefine), Sq({<<>>}), Sq(Opt({CRepeat("r", P("rows")), CRepeat("r", P("lst"))})), Sq(Opt({CContent(P("default"), FALSE)})),
+                                Sq(PAttr), Sq({<<>>}), Sq(KDefine), Sq(KCond), Sq(KRepeat), Sq(KContent), Sq({<<>>})>>
+                         ELSE <<Sq(PDefine), Sq(PCond), Sq(PRepeat), Sq(PContent), Sq(PAttr), Sq(POmit), Sq(KDefine), Sq(KCond), Sq(KRepeat), Sq(KContent), Sq(KAttr)>>)
+      [] f = "metal" -> <<IF Quick THEN <<TRUE>> ELSE <<TRUE, FALSE>>, Sq(MacroTal), Sq(SlotTal), Sq(UsePairs), Sq(FillOpts)>>
+      [] f = "esc"   -> <<Sq(EscShapes), Sq(MetaValues(EscLen))>>
+      [] f = "py"    -> <<Sq(PyTrees), <<FALSE, TRUE>>>>
+      [] f = "doc"   -> <<<<0, 1, 2, 3>>>>
+      [] OTHER       -> <<>>
 
 RECURSIVE Prod(_, _)
 Prod(dims, i) == IF i > Len(dims) THEN {<<>>} ELSE {<<a>> \o r : a \in 1..Len(dims[i]), r \in Prod(dims, i + 1)}
 Indices(f) == Prod(Dims(f), 1)
-RECURSIVE Rank(_, _, _)          \* mixed-radix number of an index vector (to split a family over processes)
+RECURSIVE Rank(_, _, _)          \* mixed-radix number of an index vector (to split a product family over processes)
 Rank(dims, ix, i) == IF i > Len(dims) THEN 0 ELSE (ix[i] - 1) + Len(dims[i]) * Rank(dims, ix, i + 1)
-Pick(f, ix) == [i \in DOMAIN ix |-> Dims(f)[i][ix[i]]]
 
 \* the contexts a family is run with: esc brings its own values, py and doc need one context only
 CtxFor(f, ctxs) == IF f \in {"esc", "doc"} THEN {"none"} ELSE IF f = "py" THEN {"A"} ELSE ctxs
@@ -251,16 +249,20 @@ CtxFor(f, ctxs) == IF f \in {"esc", "doc"} THEN {"none"} ELSE IF f = "py" THEN {
 \* ctx = [id |-> name of a context of Contexts ("none": no named context), ents |-> further globals]
 Case(fam, tree, id, ents, py, var) == [fam |-> fam, tree |-> tree, ctx |-> [id |-> id, ents |-> ents], py |-> py, var |-> var]
 CaseOf(d) ==
-    LET o == Pick(d.fam, d.ix) IN
-    CASE d.fam = "one"   -> Case("one", OneTree(o), d.ctx, <<>>, FALSE, 0)
-      [] d.fam = "nest"  -> Case("nest", NestTree(o[1] \o o[2] \o o[3] \o o[4] \o o[5] \o o[6], o[7] \o o[8] \o o[9] \o o[10] \o o[11]), d.ctx, <<>>, FALSE, 0)
-      [] d.fam = "metal" -> Case("metal", MetalTree(o[1], o[2], o[3], o[4], o[5]), d.ctx, <<>>, FALSE, 0)
-      [] d.fam = "esc"   -> Case("esc", o[1], "none", EscCtx(o[2]), FALSE, 0)
-      [] d.fam = "py"    -> Case("py", o[1], d.ctx, <<>>, o[2], 0)
-      [] d.fam = "doc"   -> Case("doc", o[1], "none", <<>>, FALSE, o[2])
-      [] OTHER           -> Case(d.fam, o[1], d.ctx, <<>>, FALSE, 0)
+    LET dims == Dims(d.fam)
+        o    == [i \in DOMAIN d.ix |-> dims[i][d.ix[i]]]
+    IN CASE d.fam = "one"   -> Case("one", OneTree(o), d.ctx, <<>>, FALSE, 0)
+         [] d.fam = "nest"  -> Case("nest", NestTree(o[1] \o o[2] \o o[3] \o o[4] \o o[5] \o o[6], o[7] \o o[8] \o o[9] \o o[10] \o o[11]), d.ctx, <<>>, FALSE, 0)
+         [] d.fam = "metal" -> Case("metal", MetalTree(o[1], o[2], o[3], o[4], o[5]), d.ctx, <<>>, FALSE, 0)
+         [] d.fam = "esc"   -> Case("esc", o[1], "none", EscCtx(o[2]), FALSE, 0)
+         [] d.fam = "py"    -> Case("py", o[1], d.ctx, <<>>, o[2], 0)
+         [] d.fam = "doc"   -> Case("doc", d.tree, "none", <<>>, FALSE, o[1])
+         [] OTHER           -> Case(d.fam, d.tree, d.ctx, <<>>, FALSE, 0)
+\* (set families are not split: they belong to part 0)
 Descs(fams, ctxs, nparts, part) ==
-    UNION {{[fam |-> f, ix |-> ix, ctx |-> c] : ix \in {x \in Indices(f) : Rank(Dims(f), x, 1) % nparts = part}, c \in CtxFor(f, ctxs)} : f \in fams}
+    UNION {{[fam |-> f, ix |-> ix, ctx |-> c, tree |-> t] :
+               ix \in {x \in Indices(f) : IF f \in SetFams THEN part = 0 ELSE Rank(Dims(f), x, 1) % nparts = part},
+               c \in CtxFor(f, ctxs), t \in TreesOf(f)} : f \in fams}
 NoCase == Case("", <<>>, "none", <<>>, FALSE, 0)
 CtxEnts(c) == (IF c.ctx.id \in DOMAIN Contexts THEN Contexts[c.ctx.id] ELSE <<>>) \o c.ctx.ents
 =============================================================================
